@@ -35,9 +35,9 @@ ASSUMPTIONS = [
     "both drivers store the iteration counter before incrementing it: a resumed run repeats the iteration number it was saved at; the restored counter is identical and trajectories are compared by position (reported as an observation, not judged)",
     "the standalone HMC class saves parameters only and has no id/state_dict: it is outside 'MCMC with every operator and adaptor combination' and not exercised",
     "transient attributes (operator.saved_tensors) are not part of the run state",
-    "a ZeroDivisionError raised by the end-of-run summary of MCMC.run (operator never selected in a short run) is ignored: the run is complete at that point",
 ]
 BUDGET = {"quick": 85, "thorough": 900}
+ROUNDS = {"thorough": 6}
 FLOORS = {"restarts": {"quick": 120, "thorough": 1200}, "state_components_compared": {"quick": 5000, "thorough": 50000}, "trajectory_steps_compared": {"quick": 500, "thorough": 5000},
           "optimizers": 6, "operator_kinds": 5, "adaptor_kinds": 4}
 
@@ -338,12 +338,7 @@ def run_main(specfile, checkpoint, rec, workdir):
     dtype = torch.get_default_dtype()
     try:
         with contextlib.redirect_stdout(io.StringIO()), contextlib.redirect_stderr(io.StringIO()) as err:
-            try:
-                entry.main()
-            except ZeroDivisionError:
-                # MCMC.run prints accept/(accept+reject) per operator after the last iteration: 0/0 for an operator that
-                # was never selected in a 12-iteration run.  The run itself is complete; not a checkpoint matter.
-                pass
+            entry.main()
     finally:
         sys.argv = argv
         mcmc_mod.MCMC.run, optim_mod.Optimizer.run = o1, o2
